@@ -170,6 +170,13 @@ def run(ctx):
         pick = [racy[rng.randrange(len(racy))] for _ in range(nrace)] if nrace < len(racy) * 3 else racy * (nrace // len(racy))
         for k, c in enumerate(pick):
             runs.append(dict(id=c["id"], sched=1 + (k % 4) + 4 * rng.randrange(1000)))
+    # concurrent iterations of one prepared statement: the windows in which two of them can meet inside the driver
+    # (state shared through the statement cache entry) are a few instructions wide - every such case many times over
+    concs = [c for c in cases if c["conc"] > 1]
+    nrep = (int(os.environ.get("VF_C15_CONCREP", "0")) or (40 if quick else 400)) if replay_cases is None else 200
+    for c in concs:
+        for k in range(nrep):
+            runs.append(dict(id=c["id"], sched=1 + rng.randrange(4000)))
     for k, r in enumerate(runs):
         r["run"] = k + 1
         c = byid[r["id"]]
@@ -180,8 +187,8 @@ def run(ctx):
     nexec = sum(max(len(r["plan"]), r["conc"]) for r in runs)
     rp = os.path.join(ctx.tmp, "c15_runs.ndjson")
     vf.write_ndjson(rp, runs)
-    ctx.log("cases=%d (re-executing one Query value: %d; can race: %d) jobs=%d iterations=%d" % (
-        len(cases), len(multi), len(racy), len(runs), nexec))
+    ctx.log("cases=%d (re-executing one Query value: %d; can race: %d; concurrent: %d x %d) jobs=%d iterations=%d" % (
+        len(cases), len(multi), len(racy), len(concs), 1 + nrep, len(runs), nexec))
 
     # ---- 3. the real driver
     binary = vf.build_gotest(ctx, ".", ["common", "c15"])
